@@ -6,6 +6,12 @@ CHECKS = {
  "C19": dict(cat="model_checking", tech="TLA+ ideal-string model (DString.tla) model-checked with TLC; TLC-generated operation histories replayed on d_string.c (ASan/UBSan); every recorded post-state validated by TLC against the model (DStringTrace.tla)",
              text="The ideal string model and the capacity-growth design are model-checked exhaustively (small StartCap). At the code's real scale TLC enumerates every 1-operation history over boundary arguments and simulates longer ones; each is executed on the real d_string.c and every recorded post-state (content, length, strlen, NUL, capacity, allocation) must be the model's next state.",
              note="Bounded: histories of 1 (quick) / 2 (thorough) operations exhaustively, random histories of 5-9 beyond; payload alphabet fixed by the spec; preconditions listed in the evidence file. Trusted: TLC, clang sanitizers.", ref="5/C19"),
+ "C05": dict(cat="model_checking", tech="TLA+ Session specification (conversion results are a function of the key) model-checked with TLC incl. defect flags; TLC-generated call histories replayed on the library; recorded traces validated by TLC (SessionTrace.tla) against fresh-process reference executions",
+             text="Session.tla models the process state the code has (global generator, engine stacks) and TLC checks HistoryIndependent over all histories of the small model, exhibiting the violation for each defect flag. TLC enumerates all 2-step (thorough 3-step) histories over a document pool x option sets x entry-point families x a reusable engine and simulates 12-step ones; plus random reused-engine walks over the repository corpus. Every key is first converted in a process of its own; SessionTrace accepts a trace only if every later conversion with the same key returns the same digest and leaves the caller's buffer unchanged.",
+             note="Bounded histories and a finite pool of documents/options; digest = FNV-1a-64 of returned bytes; ASan build with pool on.", ref="5/C05"),
+ "C18": dict(cat="model_checking", tech="TLA+ TokenPool specification model-checked exhaustively (TLC, SlabSize 2, histories <= 10/12) with defect flags; TLC-generated well-bracketed histories replayed on token.c/object_pool.c under ASan with link-time interposition of pool_allocate_object; trace validated by TLC (TokenPoolTrace.tla, SlabSize 1024)",
+             text="All histories of the pool protocol up to 10 (12) actions are model-checked for NoDangling, ReleasedAtOutermostDrain, CleanStart, CleanAfterFree, CounterAgrees. Every BFS history of 6 (7) actions and simulated 24-action histories, with documents sized by dry run to land on the 1024-object slab boundary and to span up to 18 slabs, are executed on the real pool; after every call the pool's slab count and next pointer, allocation counts, tree walks of held trees and result digests must be what the model predicts.",
+             note="Environment discipline (well-bracketed) is part of the spec; harness plays main.c's role. Trusted: --wrap interposition, ASan.", ref="5/C18"),
 }
 NOT_APPLICABLE = {}
 def main():
